@@ -9,7 +9,7 @@ import json
 import math
 from fractions import Fraction
 
-from harness import core
+from harness import core, facts
 
 # ----------------------------------------------------------------------------------------------
 # optimiser tolerance budgets on twice_nll (= 2 f + const): the certificate value 2*eps bounds
@@ -19,6 +19,18 @@ BUDGET = {'scipy': 1e-4, 'minuit': 3e-3}
 SPREAD = 5e-3            # cross-configuration spread of the attained twice_nll on one problem
 FUN_RTOL = 1e-9          # reported fun vs twice_nll re-evaluated at the returned point (same backend)
 BACKENDS = ['numpy', 'jax', 'pytorch', 'tensorflow']
+
+
+# ----------------------------------------------------------------------------------------------
+# tie to the source: coq/gen/FitGen.v is written from $VERIF_REPO/src on every run (harness/props/c05_tie.py)
+def generate():
+    from harness.props import c05_tie
+    return c05_tie.generate()
+
+
+def extract(ctx):
+    from harness.props import c05_tie
+    return c05_tie.extract(ctx)
 
 
 # ----------------------------------------------------------------------------------------------
@@ -574,9 +586,23 @@ def run(ctx):
     import pyhf
     rng = ctx.rng
     tie = None
-    ok, txt = core.prove(ctx)
-    if not ok:
-        tie = 'proof obligations of props/C05.v no longer check: ' + txt[-1200:]
+    try:
+        ctx.coverage['translated_from_source'] = extract(ctx)
+    except facts.TieBroken as e:
+        tie = ('translation of pyhf/optimize/{common,mixins,opt_*}.py and infer/mle.py to Gallina failed (harness/props/c05_tie.py): %s' % e)
+    if tie is None:
+        ok, txt = core.prove(ctx)
+        if not ok:
+            why = ('the functions translated from the source no longer coincide with the hand model (coq/TieFit.v, C05_source_is_model_*): '
+                   if ('TieFit' in txt or 'source_is_model' in txt or 'FitGen' in txt) else 'proof obligations of props/C05.v no longer check: ')
+            tie = why + txt[-1200:]
+    rc_model, mout, _ = core.coq_make(['Fit.vo'])          # the hand model is run for the correspondence even when a tie theorem no longer checks
+    if rc_model != 0:
+        tie = tie or ('coq/Fit.v does not build: ' + mout[-800:])
+    ctx.trusted += ['harness/props/c05_tie.py + harness/props/tie_translate.py (python ast -> Gallina for _make_stitch_pars, shim, the objective wrappers, '
+                    'OptimizerMixin.minimize with _internal_minimize / _internal_postprocess inlined, mle.fit with _validate_fit_inputs inlined, mle.fixed_poi_fit; '
+                    'fail closed): C05_source_is_model_* prove the translated definitions equal to the hand model; the reading of the external names '
+                    '(_TensorViewer, tensorlib.gather/zeros, the optimiser, minuit.fixed) is stated in the header of coq/gen/FitGen.v']
     ctx.trusted += ['SLSQP (scipy) and MIGRAD (iminuit) are modelled by their reported outputs (x, fun, success); '
                     'theorem premises: the optimiser returns a vector of the dimension of x0 (stitched path), holds the fixed values it is handed '
                     '(unstitched path), reports func at its own x',
